@@ -278,6 +278,31 @@ fn gen_c13(seed: u64, tier: Tier) -> Scenario {
     let dom = Dom { edges: false, custom_kernels: true, wild: true, ..Dom::default() };
     sc.config = gen_config(&mut rng, &dom);
     sc.signal = gen_signal(&mut rng);
+    if rng.chance(0.01) {
+        // the degenerate chunk size 0 (accepted by every constructor): no processing call is made on it (such an
+        // instance is outside the sampled domain of valid histories), but a wrong channel count or mask length is
+        // still reported as such, not accepted and not a panic
+        sc.config.chunk = 0;
+        let mut ops = Vec::new();
+        for _ in 0..rng.usize_in(1, 6) {
+            let delta = *rng.pick(&[-1i8, 1, 1, 2, -2, 3]);
+            let zero = rng.chance(0.2);
+            let call = match rng.below(3) {
+                0 => BadCall::InChannels { delta, zero },
+                1 => BadCall::OutChannels { delta, zero },
+                _ => BadCall::MaskLen { delta, zero },
+            };
+            let path = match call {
+                BadCall::OutChannels { .. } => *rng.pick(&[Path::IntoBuffer, Path::VecIntoBuffer, Path::PartialInto, Path::VecPartialInto]),
+                _ => *rng.pick(&ALL_PATHS),
+            };
+            ops.push(Op::Bad { call, path });
+        }
+        sc.profile = "chunk-zero+malformed".into();
+        sc.twin = Twin::Skip { idx: (0..ops.len()).collect() };
+        sc.ops = ops;
+        return sc;
+    }
     let n = ops_budget(&sc.config, tier_budget(tier), 6, q(tier, 40, 80), &mut rng);
     let m = OpMix::swarm(&mut rng, n);
     let (p, mut ops, t) = gen_history(&mut rng, &sc.config, &m);
@@ -327,6 +352,27 @@ fn check_constructor_faults(out: &mut Outcome, sc: &Scenario) {
     cfg.sinc_len = 8;
     cfg.oversampling = 2;
     cfg.chunk = cfg.chunk.min(64);
+    if rng.chance(0.4) {
+        // the remaining arguments are arbitrary, zeros included: the documented error comes first whatever they are
+        cfg.kernel = Kernel::Auto;
+        if rng.chance(0.4) {
+            cfg.chunk = 0;
+        }
+        if rng.chance(0.4) {
+            cfg.sub_chunks = 0;
+        }
+        if rng.chance(0.3) {
+            cfg.channels = 0;
+            cfg.mask = None;
+        }
+        if rng.chance(0.3) {
+            cfg.sinc_len = 0;
+        }
+        if rng.chance(0.3) {
+            cfg.oversampling = 0;
+        }
+        out.cov.probe("constructor_fault_with_zero_arguments", 1);
+    }
     let which = rng.below(3);
     let expect;
     if cfg.kind.is_async() {
